@@ -192,6 +192,43 @@ def job_api(mn, fixed, fields_spec, seed):
     return res
 
 
+def job_beyond(mn):
+    """Values just outside (and far outside) each operand's range: the encoder normally refuses them (C06 owns that); if it
+    ACCEPTS one, the word cannot decode to the operand that was named - which is C01's business."""
+    asm = env.load_asm()
+    res = env.Result()
+    dom = domains(mn)
+    names = apimap.api_fields(mn)
+    for k in names:
+        d = dom[k]
+        lo, hi = d[0], d[-1]
+        step = d[1] - d[0] if len(d) > 1 else 1
+        outside = [lo - i * step for i in range(1, 70)] + [hi + i * step for i in range(1, 70)]
+        outside += [lo - (1 << j) for j in range(7, 34)] + [hi + (1 << j) for j in range(7, 34)]
+        if rvref.fmt_of(mn) == 'CSR' and k == 'csr':
+            outside = [v for v in outside if v > 4095 or v < -2048]   # negative / >= 0x800 CSR spellings are EITHER (C06)
+        if mn == 'jalr' and k == 'imm':
+            outside += list(range(-2047, 2048, 2))   # odd offsets: refused today; if accepted they must encode as named
+        base_f = {o: dom[o][len(dom[o]) // 3] for o in names if o != k}
+        for v in outside:
+            f = dict(base_f)
+            f[k] = v
+            res.evaluations += 1
+            try:
+                got = apimap.call_encoder(asm, mn, f)
+            except ValueError:
+                continue
+            try:
+                ok = got == expected_word(mn, f)
+            except ValueError:
+                ok = False
+            if not ok:
+                res.fail('api:%s:unrepresentable' % mn, '%s %r is accepted although %s=%r cannot be encoded; the word 0x%08x decodes to %r' % (
+                    mn, f, k, v, got, rvref.dec32(got & 0xffffffff) if isinstance(got, int) else None), {'kind': 'api', 'mn': mn, 'fields': f})
+            res.nontrivial_count += 1
+    return res
+
+
 def plan(tier, seed):
     jobs = []
     for mn in sorted(rvref.BASE):
@@ -346,6 +383,7 @@ def run(tier):
     for mn in sorted(rvref.BASE):
         contrib_tables(mn)       # built once here, inherited by the forked workers
     chk.merge(env.run_shards(job_api, jobs))
+    chk.merge(env.run_shards(job_beyond, [(mn,) for mn in sorted(rvref.BASE) if apimap.api_fields(mn)]))
     api_evals = chk.res.evaluations
     n_text = {'quick': 100000, 'thorough': 3000000}[tier]
     lines = 200
@@ -378,10 +416,14 @@ def replay(path):
         mn, f = case['mn'], case['fields']
         try:
             got = apimap.call_encoder(asm, mn, f)
-            if got != expected_word(mn, f):
-                why = describe(mn, f, got)
         except ValueError:
-            why = None
+            got = None
+        if got is not None:
+            try:
+                if got != expected_word(mn, f):
+                    why = describe(mn, f, got)
+            except ValueError:
+                why = '%s %r accepted (0x%08x) although an operand cannot be encoded' % (mn, f, got)
     else:
         # single source line: compare with the expected word stored in the message is not possible without IR;
         # re-derive by decoding: the replay stores one line whose canonical tuple is re-parsed by rvref from text
